@@ -68,6 +68,9 @@ def _iter_defs(body):
 
 
 def find_function(qualname: str) -> FunctionSource:
+    # "module:Class.method#variant": several contracts (case splits on the node's configuration)
+    # may cover one function
+    qualname = qualname.split("#")[0]
     module, _, path = qualname.partition(":")
     tree, file, text = module_ast(module)
     node, cls = _find(tree.body, path.split("."), None)
